@@ -8,6 +8,8 @@ mod rng;
 mod val;
 mod hist;
 mod oracle;
+mod oracle2;
+mod oracle3;
 
 use std::io::{BufRead, Write};
 use val::*;
